@@ -7,7 +7,7 @@ CONSTANTS
   GuardFix = TRUE
   CleanupFix = FALSE
   SerialReg = TRUE
-  MaxBatch = 0
-  RetryEnds = TRUE
-INVARIANTS AllGone NoCrash NewestSender
+  MaxBatch = 1
+  RetryEnds = FALSE
+INVARIANTS RetryCanEnd
 CHECK_DEADLOCK FALSE
